@@ -40,6 +40,9 @@ def plan(tier: str, seed: int) -> Plan:
         ("arr", ["$[0]", "$[1]", "$[0]"], ["|", "|"]), ("nest1", ["$..*", "$.a.*", "$.b.*"], ["&", "&"]),
         ("nest1", ["$.a.*", "$.b.*"], ["&"]), ("objarr", ["$[*].a", "$[*].b", "$[0].*"], ["&", "&"]),
         ("obj2", ["$.*", "$.*", "$.a", "$.b"], ["&", "&", "&"]),
+        # operands that differ in root kind: each operand inside a compound means what it means alone
+        ("obj2", ["$.*", "^[?@.a == 1]"], ["&"]), ("obj2", ["^[?@.a == 1]", "$[?@ == 1]"], ["&"]), ("obj2", ["^[?@.a]", "$.a", "^.*"], ["|", "&"]),
+        ("obj2", ["$.a", "^[?@.a == 1]", "$.b"], ["|", "|"]),
     ]
     picked = list(core)
     k = 60 if thorough else 6
@@ -58,7 +61,7 @@ def plan(tier: str, seed: int) -> Plan:
                                     "maxn": 2 if s == "arr" else 1}, T * (1 if s in ("obj2", "arr") else 3),
                                    required=s in ("obj2", "arr"),
                                    bounds=f"{len(operands)} operands; leaves {leaf} (values decide which intersections are empty)"))
-    for q, s in [("$..*", "nest1"), ("$.a | $.b", "obj2"), ("$[?@.a == 1]", "objarr"), ("$.* & $..a", "nest1")] + (
+    for q, s in [("$..*", "nest1"), ("$.a | $.b", "obj2"), ("$[?@.a == $[0].a]", "objarr"), ("$.* & $..a", "nest1"), ("$.a[?@ == $.b.a]", "nest1")] + (
             [("$..a", "deep"), ("$[*]", "arr"), ("$.a & $.b & $.a", "obj2")] if thorough else []):
         conds.append(Condition(f"forms:{s}:{q}", "forms", H, "forms", {"operands": [q], "ops": [], "spine": s, "maxn": 1, "pooln": 14 if thorough else 6}, T * 2, required=False,
                                bounds="2 leaves chosen by symbolic indices from a pool of 6 (thorough 14) values (solver-driven enumeration: json.dumps concretises)"))
